@@ -72,6 +72,14 @@ def main():
         if args.replay:
             mod.replay(ctx, args.replay)
         else:
+            # minimised past failures / findings first (corpus/Cxx/*.json are replay files); a module that handles
+            # its own corpus says so with OWN_CORPUS = True
+            cdir = os.path.join(core.VERIF, 'corpus', prop)
+            if os.path.isdir(cdir) and not getattr(mod, 'OWN_CORPUS', False) and hasattr(mod, 'replay'):
+                for f in sorted(os.listdir(cdir)):
+                    if f.endswith('.json'):
+                        mod.replay(ctx, os.path.join('corpus', prop, f))
+                        ctx.count('corpus-replayed')
             mod.run(ctx)
         # a proof obligation that no longer checks and no failing input found by the search above
         if ctx.undischarged and ctx.violations == 0:
